@@ -109,6 +109,12 @@ FIXED_PROGRAMS = [
     'def f15 { salt: " v2 " splitters: uid return "A" weighted 1, "B" weighted 1, "C" weighted 1 }',
     'def f16 { splitters: uid if x == 1 { return "a" weighted 0, "b" weighted 0 } else if x in (2, 3, 4, 5) { return "run" weighted 1 } else if x not in (7, 8, 9) { return "c" weighted 1, "d" weighted 0.0 } else { return "e" weighted 1 } }',
     'def f10 { salt: "\U0001F680x" splitters: uid return "A" weighted 1, "B" weighted 1 }',
+    # a literal whose text equals what str() / repr() shows for a term rendered earlier in the same program (identifier model,
+    # tuple, number, other string): each must still be rendered as itself
+    'def f17 { splitters: uid if country == "DE" { return "de" weighted 1 } else if region == "name=\'country\'" { return "model-text" weighted 1 } else if region == "country" { return "field-name" weighted 1 } '
+    'else if pair in ("US", "CA") { return "tuple" weighted 1 } else if pair == "(\'US\', \'CA\')" { return "tuple-text" weighted 1 } else if pair == "[\'US\', \'CA\']" { return "list-text" weighted 1 } '
+    'else if n == 1 { return "one" weighted 1 } else if n == "1" { return "one-text" weighted 1 } else if n == 1.0 { return "one-float" weighted 1 } else if n == "1.0" { return "float-text" weighted 1 } '
+    'else if s == "x" { return "x" weighted 1 } else if s == "\'x\'" { return "quoted-x" weighted 1 } else { return "rest" weighted 1 } }',
 ]
 
 
@@ -332,7 +338,8 @@ def mutants_diff(req):
         lst = fails.setdefault(clause, [])
         if len(lst) < limit:
             lst.append(d)
-    junk = ["=", ".", ";", "@", "#", "$", "&", "|", "~", "`", "?", "%", "^", "[", "]", "\\", "=<", "=>", ".5", "1.", "def", "junk junk", "}", "{", "return", "weighted", '"unterminated']
+    junk = ["=", ".", ";", "@", "#", "$", "&", "|", "~", "`", "?", "%", "^", "[", "]", "\\", "=<", "=>", ".5", "1.", "def", "junk junk", "}", "{", "return", "weighted", '"unterminated',
+            "\ufeff", "\u00ef\u00bb\u00bf", "\u00bb", "\u200b", "\u00a0@", "\x00", "\u2060", "\ufffe"]
     insertable = ["and", "or", "not", "(", ")", ",", "==", "1", '"s"', "x", "if", "else", "{", "}", "weighted", "return", "-", ":", "in"]
     for i in range(count):
         exp = dsl_ref.gen_experiment(rnd)
@@ -366,7 +373,7 @@ def mutants_diff(req):
                 parts = [tokens_to_text(t[:j]), rnd.choice(junk), tokens_to_text(t[j:])]
                 v = " ".join(parts)
             elif k == 5:
-                v = rnd.choice(junk + insertable) + " " + base
+                v = rnd.choice(junk + insertable) + rnd.choice([" ", ""]) + base       # also glued to the first token
             elif k == 6:
                 v = base + " " + rnd.choice(junk + insertable)
             else:
@@ -473,6 +480,10 @@ def tv_diff(req):
         if st == "ok":
             progs.append((a, t))
     if not req.get("programs"):
+        for t in FIXED_PROGRAMS + big_programs():          # the hand-written corner cases are validated in every run
+            st, a = dsl_ref.parse_text(t)
+            if st == "ok":
+                progs.append((a, t))
         for i in range(req.get("count", 150)):
             exp = dsl_ref.gen_experiment(rnd)
             try:
